@@ -19,7 +19,8 @@ CLAIMED = {
             "into a live node in every state in which bytes can arrive, with seeded segmentation and schedule; oracle: workers survive "
             "or the connection closes cleanly, no lock stranded, API probes return, no thread computes forever; plus the decoder "
             "sub-check (DiameterMessage.load under the step meter: returns or raises a library error within a length-only bound), "
-            "a dictionary-wide sweep (every AVP class x adversarial payload; every Grouped class legally nested in itself), flag-bit corruption.",
+            "a dictionary-wide sweep (every AVP class x adversarial payload; every Grouped class legally nested in itself), flag-bit corruption, "
+            "systematic sub-modes (one non-UTF-8 text AVP per run swept over AVP x message kind; runs of 15..300 well-framed undecodable messages).",
             TRUST + "The decoder sub-check is input sampling on the same corpus (labelled as such in the evidence); closing the connection is an accepted reaction to garbage.",
             "DESIGN.md §5 C03"),
     "C06": ("Seeded event histories over the RFC 6733 alphabet for both roles and 0..2 applications, up to 3 starts of the same object; "
@@ -37,13 +38,15 @@ CLAIMED = {
     "C13": ("Seeded route tables (1..3 applications x 1..4 codes, shared codes) registered with the real decorator, <= 16 concurrent requests "
             "with injected handler outcomes (answer, None, wrong type, exceptions, slow), per-run barrier sizes and timers; oracle: exactly "
             "the registered handler ran once, exactly one answer per request, fallback answer is UNABLE_TO_COMPLY with ids, Session-Id, "
-            "local origin and requester as destination; a second Bromelia object with foreign handlers for the same pairs.",
+            "local origin and requester as destination; a second Bromelia object with foreign handlers for the same pairs; handlers that take "
+            "seconds, a connection worker descheduled for seconds; liveness judged at quiescence.",
             TRUST + "World B1 (3 runs in 4): the connection object under Worker is a stub; world B2 (1 run in 4): the full stack, Bromelia.run -> Worker.run -> Diameter.context -> real node on the simulated network facing a scripted peer. multiprocessing.Manager is replaced by in-process primitives.",
             "DESIGN.md §5 C13, §14"),
     "C04": ("Seeded search over message sequences x segmentations (every byte, inside headers, coalesced, swept cut positions) "
             "x interleavings of transport reader, receive worker, state machine and consumer; oracle compares the sequence "
             "returned by get_message() with what the reference encoder produced and the DWAs on the wire with the DWRs sent; "
-            "pieces seconds apart, wall-clock steps, a bystander node of the same process.",
+            "pieces seconds apart, wall-clock steps, a bystander node of the same process (also with the node's own identity), stalled-thread faults "
+            "anchored at the hand-over functions, a pairs mode with per-message liveness, an application that rewrites what it was given.",
             TRUST + "Simulated OS = Linux/TCP byte stream semantics (no loss/dup/reorder inside a stream); single consumer.",
             "DESIGN.md §5 C04"),
     "C05": ("Seeded search over 1..4 submitter threads x partial-write patterns (down to one byte) x withheld writability x "
@@ -55,13 +58,16 @@ CLAIMED = {
     "C08": ("Every termination cause (local close, peer DPR, EOF, reset, refused / never-completing connect, non-CEA, DPR crossing "
             "a local stop) x every point of the connection life x seeded delay and schedule; oracle: Closed, sockets closed and "
             "unregistered, all library threads exited, blocked get_message() returned, no lock held, restart reaches Open; "
-            "stalled-thread faults, wall-clock steps (also inside the DPR/DPA linger), lingering peer, bystander node.",
+            "stalled-thread faults, wall-clock steps (also inside the DPR/DPA linger), lingering peer, bystander node, a chatty application that keeps "
+            "submitting through the end, connect() failing at once (ENETUNREACH), a peer dying in mid-message; the invariant 'Closed implies "
+            "released' is evaluated at every context switch.",
             TRUST + "D is computed from the run's polling knobs; Linux connect semantics verified against the real kernel (Windows personality as a variation).",
             "DESIGN.md §5 C08"),
     "C14": ("Seeded search over 1..6 concurrent waiting callers x answer arrival orders/delays (zero delay, duplicates, never, "
             "unsolicited) x schedules with stalled-thread faults anchored inside send_message; oracle: each caller gets the answer "
             "generated for its request, once, and a caller whose answer reached the application layer returns within D; "
-            "slow peers (answers after 31-400 s), wall-clock steps, stalls anchored inside the dispatch path.",
+            "slow peers (answers after 31-400 s), wall-clock steps, stalls anchored inside the dispatch path, the same Hop-by-Hop outstanding on two "
+            "connections, the worker-down flag flapping while an answer is in flight.",
             TRUST + "World B1 (3 runs in 4): the connection object under Worker is a stub; world B2 (1 run in 4): the full stack, Bromelia.run -> Worker.run -> Diameter.context -> real node on the simulated network, the scripted peer answering on the wire. multiprocessing.Manager is replaced by in-process primitives.",
             "DESIGN.md §5 C14, §14"),
     "C15": ("Seeded search over creation histories x adversarial os.urandom outputs x thread interleavings (pre-emption at sync ops, "
